@@ -37,9 +37,12 @@ class SimStream(io.StringIO):
         self.writes = 0
         self.fail_at = fail_at
         self.failed = False
+        self.on_write = None  # simulator hook: a write that takes long (SchedSim)
 
     def write(self, s):
         self.writes += 1
+        if self.on_write is not None:
+            self.on_write()
         if self.fail_at is not None and self.writes == self.fail_at:
             self.failed = True
             raise OSError(errno.ENOSPC, "No space left on device (injected)")
